@@ -567,7 +567,7 @@ var defects = map[string][]string{
 	"c08": {"sub-wide-9", "sub-defective-beside-good-link-large", "sub-insp-named-like-first-step", "sub-insp-named-like-last-step", "sub-defective-beside-good-link", "sub-ok", "sub-ok", "sub-badsig", "sub-expired", "sub-missing-link", "sub-rule-violation", "sub-unauthorised", "sub-nested", "sub-nested-defect", "sub-summary-mismatch"},
 	"c10": {"history-same-params", "history-diff-params", "history-no-params", "history-mixed", "mixed-cert-key", "mixed-cert-key", "mixed-cert-key-unsorted", "summary-byproducts", "direct-unclean",
 		"history-multi-alg", "history-multi-alg-mismatch", "history-whitespace-rule", "history-param-value-has-marker", "mixed-cert-key-marker-constraint", "history-threshold-zero"},
-	"c09": {"product-crlf-rewritten", "product-crlf-rewritten-normalised", "large-product-tampered-tail", "product-added-ignorable-name-0", "product-added-ignorable-name-1", "product-added-ignorable-name-2", "product-added-ignorable-name-3",
+	"c09": {"product-crlf-rewritten", "product-crlf-rewritten-normalised", "large-product-tampered-tail", "large-product-untouched", "product-added-ignorable-name-0", "product-added-ignorable-name-1", "product-added-ignorable-name-2", "product-added-ignorable-name-3",
 		"product-added-ignorable-name-4", "product-added-ignorable-name-5", "product-added-ignorable-name-6", "product-added-ignorable-name-7",
 		"product-added-ignorable-name-8", "product-added-ignorable-name-9", "product-added-ignorable-name-10", "case-variant-rule-earlier", "product-modified-backslash-decoy", "sha512-chain-product-modified", "escaped-pattern-product-modified", "escaped-pattern-none", "insp-rewrite-same-mtime", "product-all-removed", "require-after-consume", "none", "insp-fail", "insp-fail-255", "insp-missing", "insp-empty", "product-modified", "product-added", "product-removed",
 		"insp-touch-allowed", "insp-touch-disallowed", "three-inspections", "second-fails"},
@@ -1068,6 +1068,11 @@ func genScenario(r *lib.Rng, focus string, idx int) *Scn {
 			sc.BigFile = 9*1024*1024 + 12345
 			sc.Insps = []InspSpec{{Name: "insp0", Kind: "log"}}
 			sc.Expect = "reject"
+		case "large-product-untouched":
+			// the same product untouched: the links carry the true digests of all its bytes (computed by the generator),
+			// so the inspection must find exactly those
+			sc.BigFile = 9*1024*1024 + 12345
+			sc.Insps = []InspSpec{{Name: "insp0", Kind: "log"}}
 		case "case-variant-rule-earlier":
 			// an earlier rule of the same type whose pattern differs only in letter case (patterns are case-sensitive)
 			sc.Insps = []InspSpec{{Name: "insp0", Kind: "log"}}
